@@ -330,6 +330,12 @@ Projection ==
    use |-> use]
 \* (simulation mode, one worker) print every state of every behaviour
 Emit == PrintT("@@ " \o ToJson(Projection))
+\* (exhaustive mode, one worker, as ACTION_CONSTRAINT) print every transition of the state graph:
+\* source and target state keys and the projection of the target, so that the harness can
+\* replay every (state, action) pair of the bounded model along a shortest path
+StateKey == ToJson(<<bcAlive, bcC, bcDirty, everShared, alive, bcOf, intC, ghostFrom, cacheFrom,
+                     valDirty, precalc, use>>)
+EmitEdge == PrintT("@@ " \o ToJson([src |-> StateKey, dst |-> StateKey', step |-> Projection']))
 Symm == Permutations(Vars) \cup Permutations(BCs)
 Bounded == TLCGet("level") <= MaxDepth
 
